@@ -145,6 +145,11 @@ class C01(Plan):
         for fam in (fam_push, fam_pop, fam_index1, fam_swap, fam_bulk, fam_mut_views):
             g.one_step(Ns(tier, [0, 1, 2, 3, 4, 5, 6, 7], [0, 1, 2, 3, 4, 5, 6, 7, 8]), [3], fam, elem="B")
         wide_cases(g, [9, 13, 17, 33, 100], "mut", elem="B", every=(3 if tier == "quick" else 1))
+        # element types without a destructor (paths gated on mem::needs_drop) and of a third size
+        for el in ("NE", "NB", "S"):
+            for fam in (fam_push, fam_pop, fam_index1, fam_bulk, fam_mut_views):
+                g.one_step(Ns(tier, [0, 1, 2, 3, 4], [0, 1, 2, 3, 4, 5, 6]), [3], no_pair(fam), elem=el)
+        wide_cases(g, [9, 13, 17, 33, 100], "mut", elem="NE", every=(6 if tier == "quick" else 1))
         return g.cases
 
 
@@ -237,6 +242,9 @@ class C04(Plan):
                     d.ops = list(c.ops)
         for j in JUNKS:
             wide_cases(g, WIDE_E[::3], "all", junk=j, every=(40 if tier == "quick" else 6))
+        for el in ("NE", "B"):
+            g.one_step([0, 1, 2, 3], [3, 4], lambda c, N, sz: fam_drain(c, N, sz, scripts_shapes), elem=el)
+            g.one_step([0, 1, 2, 3], [3, 4], no_pair(fam_bulk), elem=el)
         return g.cases
 
     def oracle_groups(self, cases, parsed):
@@ -252,8 +260,8 @@ class C04(Plan):
                         r.get("i", {}).get("e")) for _, r in sorted(p["ops"].items()))
             tr2 = tuple((E_erase(r.get("i", {}).get("r")), r.get("i", {}).get("c"),
                          r.get("i", {}).get("e")) for _, r in sorted(p["ops"].items()))
-            k1 = (c.N, c.start, tuple(c.vals), tuple(c.ops))
-            k2 = (c.N, tuple(c.vals), tuple(c.ops), c.junk)
+            k1 = (c.elem, c.N, c.start, tuple(c.vals), tuple(c.ops))
+            k2 = (c.elem, c.N, tuple(c.vals), tuple(c.ops), c.junk)
             if k1 in by_junk and by_junk[k1][1] != tr:
                 out.append((c, -1, "trace depends on the bytes in unoccupied slots (junk %d vs %d)" % (by_junk[k1][0].junk, c.junk)))
             by_junk.setdefault(k1, (c, tr))
@@ -409,6 +417,11 @@ class C06(Plan):
             for k in (0, 1, 2, 3):
                 g.one_step([2, 3, 4], [4], no_pair(fam_usercode(kind)), fault="%s:%d" % (kind, k), elem="B",
                            suffix=("push_back 9001:5", "pop_front", "new"))
+        for el in ("NE", "NB"):
+            for kind in ("clone", "call", "next"):
+                for k in (0, 1, 2, 3):
+                    g.one_step([2, 3, 4], [4], no_pair(fam_usercode(kind)), fault="%s:%d" % (kind, k), elem=el,
+                               suffix=("push_back 9001:5", "pop_front", "new"))
         return g.cases
 
     def oracle_op(self, c, k, optext, rec, p):
@@ -440,6 +453,9 @@ class C07(Plan):
         g.one_step(Ns(tier, [0, 1, 2, 3, 4], [0, 1, 2, 3, 4, 5, 6]), [3], fam_mut_views, elem="B")
         g.one_step(Ns(tier, [0, 1, 2, 3, 4], [0, 1, 2, 3, 4, 5, 6]), [3], lambda c, N, sz: [["make_contiguous -", "as_slices", "iter " + ",".join("n" * (sz + 1))]], elem="B")
         wide_cases(g, [9, 13, 17, 33, 100], "view", elem="B", every=(6 if tier == "quick" else 1))
+        for el in ("NE", "NB"):
+            g.one_step(Ns(tier, [0, 1, 2, 3, 4], [0, 1, 2, 3, 4, 5, 6]), [3], fam_accessors, elem=el)
+            g.one_step(Ns(tier, [0, 1, 2, 3, 4], [0, 1, 2, 3, 4, 5, 6]), [3], fam_mut_views, elem=el)
         return g.cases
 
     def oracle_op(self, c, k, optext, rec, p):
@@ -489,6 +505,9 @@ class C09(Plan):
         g.one_step(Ns(tier, [1, 2, 3, 4], [1, 2, 3, 4, 5, 6]), [4],
                    lambda c, N, sz: fam_drain(c, N, sz, scripts_shapes, ranges=all_ranges(sz, with_invalid=False)), elem="B")
         wide_cases(g, [9, 13, 17, 33, 100], "drain", elem="B", junk=4, every=(4 if tier == "quick" else 1))
+        for el in ("NE", "B"):
+            g.one_step(Ns(tier, [1, 2, 3, 4, 5, 7], [1, 2, 3, 4, 5, 6, 7]), [4],
+                       lambda c, N, sz: fam_drain(c, N, sz, scripts_shapes, ranges=all_ranges(sz, with_invalid=False)), elem=el)
         return g.cases
 
 
@@ -512,6 +531,7 @@ class C10(Plan):
                         out.append(["drain %s %s %s forget" % (sb, eb, s), f, "push_back 9100:1", "new"])
             return out
         g.one_step(Ns(tier, [0, 1, 2, 3], [0, 1, 2, 3, 4]), [4, 3], mk, suffix=())
+        g.one_step([1, 2, 3], [4], mk, suffix=(), elem="NE")
         random_histories(g, tier, 30 if tier == "quick" else 500, [3, 4, 5, 8], 30)
         # sprinkle forgotten drains into the histories
         for c in g.cases:
@@ -588,6 +608,8 @@ class C12(Plan):
                        lambda c, N, sz: ["from_array " + c.es(m) for m in sorted({N + 1, 2 * N + 1})] +
                                         ["from_iter " + c.es(N + 1), "clone_keep", "clone_drop", "into_iter n"],
                        fault="drop:%d" % k, suffix=("push_back 9001:5", "new"))
+        for el in ("NE", "NB"):
+            g.one_step(Ns(tier, [0, 1, 2, 3], [0, 1, 2, 3, 4]), [4], no_pair(fam_constructors), elem=el)
         return g.cases
 
 
@@ -792,6 +814,11 @@ class C18(Plan):
         wide_cases(g, WIDE_E, "all", every=(16 if tier == "quick" else 3))
         for fam in (fam_push, fam_pop, fam_index1, fam_bulk, fam_accessors, fam_mut_views):
             g.one_step([0, 1, 2, 3], [3], fam, elem="B")
+        for el in ("NE", "NB"):
+            for fam in (fam_push, fam_pop, fam_bulk, fam_accessors, fam_constructors):
+                g.one_step([0, 1, 2, 3], [3], no_pair(fam), elem=el)
+            for k in (0, 1, 2):
+                g.one_step([2, 3], [4], no_pair(fam_usercode("clone")), fault="clone:%d" % k, elem=el, suffix=("push_back 9001:5", "new"))
         return g.cases
 
     def cross_cfg(self, results):
@@ -815,7 +842,7 @@ class C18(Plan):
         return out
 
 
-HUGE = [65537, 2**32 - 1, 2**32, 2**32 + 1, 2**63 - 1, 2**63, 2**63 + 1, 2**64 - 2, 2**64 - 1]
+HUGE = [65537, 2**31 + 1, 3000000000, 2**32 - 5, 2**32 - 2, 2**32 - 1, 2**32, 2**32 + 1, 2**63 - 1, 2**63, 2**63 + 1, 2**64 - 2, 2**64 - 1]
 
 
 class C19(Plan):
